@@ -690,6 +690,19 @@ class WorldGen:
             for _ in range(P.get("provq", 1)):
                 L.append("prov|%s" % keytok(P.get("provkinds")))
         L.extend(carry)
+        del carry[:]
+        # HANDLERS (`provided=None` subscriptions) by construction (seeded change o05a: `unsubscribe` of a handler bumping the generation
+        # without `changed()` was invisible, every subscription of this stream had a provided interface): two handlers under one key,
+        # `subscriptions(required, None)` warm in every registry of the chain, one of them unsubscribed with no other mutation in
+        # between, the same queries again
+        hr = rnd.randrange(nr)
+        hts = " ".join(keytok() for _ in range(rnd.choice((1, 1, 2))))
+        hv, hv2 = val(), val()
+        L.append("sub|%d|%s|N|%d %d" % (hr, hts, hv[0], hv[1]))
+        L.append("sub|%d|%s|N|%d %d" % (hr, hts, hv2[0], hv2[1]))
+        L.extend("subs|%d|%s|N" % (q, hts) for q in range(nr))
+        L.append("unsub|%d|%s|N|%s" % (hr, hts, "N" if rnd.random() < 0.3 else "%d %d" % hv))
+        L.extend("subs|%d|%s|N" % (q, hts) for q in range(nr))
 
         def no_empty_key(l):
             # the empty declaration is used as a LOOKUP key only (the model stands it for a specification nothing is registered under)
